@@ -21,3 +21,12 @@ func VerifDefaults() map[string]any {
 		"ServiceTodo":              defaultServiceTodo,
 	}
 }
+
+// VerifSteps exposes the ordered compile steps.
+func (c Compiler) VerifSteps() []any {
+	r := make([]any, len(c.steps))
+	for i, s := range c.steps {
+		r[i] = s
+	}
+	return r
+}
